@@ -45,6 +45,7 @@ def div4_facts(project):
     """Evaluate toasty.toast._div4 -> list of (pos term, corners tuple, increasing term)."""
     f = project.fn(T + "._div4")
     ev = sym.make_evaluator(project, T, [], inline_local=True, no_inline=("mid",))
+    ev.unroll = True
     r = ev.run(f.node)
     tile = ("sym", f.params()[0])
     if len(r.returns) != 1:
